@@ -4,6 +4,39 @@ From PG Require Import Common.Tactics Common.Tr Gen.TypeOrder Model.Compare
 From Coq Require Import QArith Sorting.Sorted.
 Close Scope Q_scope.
 
+(* the bit the runner prints for "same hash pre-image" is Leibniz equality of the pre-images *)
+Lemma hterm_ind' (P : hterm -> Prop) :
+  (forall q, P (HNum q)) -> (forall s, P (HStr s)) ->
+  (forall c l, Forall P l -> P (HNode c l)) -> (forall k h, P h -> P (HEnt k h)) -> forall x, P x.
+Proof.
+  intros Hn Hs Hl He. fix IH 1. intros [q|s|c l|k h].
+  - apply Hn. - apply Hs.
+  - apply Hl. induction l; constructor; auto.
+  - apply He. apply IH.
+Qed.
+Lemma cls_eqb_eq c d : cls_eqb c d = true <-> c = d.
+Proof.
+  destruct c, d; simpl; split; try discriminate; try reflexivity; intros H.
+  - apply andb_prop in H. destruct H as [H1 H2]. apply str_eqb_eq in H1. apply N.eqb_eq in H2. congruence.
+  - inv H. rewrite str_eqb_refl, N.eqb_refl. reflexivity.
+Qed.
+Lemma hterm_eqb_eq x : forall y, hterm_eqb x y = true <-> x = y.
+Proof.
+  induction x using hterm_ind'; intros y; destruct y; simpl; split; try discriminate; intros E.
+  - destruct q, q0; simpl in *. apply andb_prop in E. destruct E as [E1 E2].
+    apply Z.eqb_eq in E1. apply Pos.eqb_eq in E2. congruence.
+  - inv E. rewrite Z.eqb_refl, Pos.eqb_refl. reflexivity.
+  - apply str_eqb_eq in E. congruence.
+  - inv E. apply str_eqb_refl.
+  - apply andb_prop in E. destruct E as [E1 E2]. apply cls_eqb_eq in E1. subst. f_equal.
+    revert l0 E2. induction H as [|h l Hh Hl IH]; intros [|h' l'] E2; try discriminate; auto.
+    apply andb_prop in E2. destruct E2 as [E2 E3]. apply Hh in E2. subst. f_equal. apply IH; auto.
+  - inv E. apply andb_true_intro. split. apply cls_eqb_eq; auto.
+    induction H as [|h l Hh Hl IH]; auto. apply andb_true_intro. split; auto. apply Hh; auto.
+  - apply andb_prop in E. destruct E as [E1 E2]. apply key_eqb_eq in E1. apply IHx in E2. congruence.
+  - inv E. apply andb_true_intro. split. apply key_eqb_eq; auto. apply IHx; auto.
+Qed.
+
 Section WithTable.
 Variable t : ranks.
 Variable cu : list N -> N.
